@@ -12,6 +12,7 @@ from typing import Dict, List, Literal, Optional, Tuple, Union
 import duckdb
 import pandas as pd
 
+from vtlengine import _verif
 from vtlengine.DataTypes import Date, Number, TimePeriod
 from vtlengine.duckdb_transpiler.io._validation import (
     VALID_DATE_REGEX,
@@ -416,7 +417,9 @@ def save_datapoints_duckdb(
     else:
         copy_options = "WITH (HEADER true, DELIMITER ',')"
 
+    _verif.fault_point("write", dataset_name)
     conn.execute(f"COPY {source} TO '{output_file}' {copy_options}")
+    _verif.event("write", name=dataset_name, file=str(output_file))
 
     if delete_after_save:
         conn.execute(f'DROP TABLE IF EXISTS "{dataset_name}"')
